@@ -128,9 +128,15 @@ func (res *Resource) unpackZipArchive() error {
 
 	// Save all files to the tmp dir.
 	for _, file := range archiveReader.File {
+		// Do not let entry names like "../x" escape the tmp dir.
+		dstPath := filepath.Join(tmpDir, filepath.FromSlash(file.Name))
+		if dstPath != tmpDir && !strings.HasPrefix(dstPath, tmpDir+string(filepath.Separator)) {
+			err = fmt.Errorf("archive entry %s is outside of the archive root", file.Name)
+			return err
+		}
 		err = copyFromZipArchive(
 			file,
-			filepath.Join(tmpDir, filepath.FromSlash(file.Name)),
+			dstPath,
 		)
 		if err != nil {
 			return fmt.Errorf("failed to extract archive file %s: %w", file.Name, err)
